@@ -173,7 +173,11 @@ class SimpleRequest:
     @property
     def path(self):
         """Path part of url."""
-        return self.__environ.get('PATH_INFO').encode('iso-8859-1').decode()
+        path = self.__environ.get('PATH_INFO')
+        try:
+            return path.encode('iso-8859-1').decode()
+        except UnicodeError:    # not UTF-8 bytes, keep as server sent it
+            return path
 
     @property
     def query(self):
